@@ -286,9 +286,8 @@ Definition ast_of_with (w : option mwith) : option gwith :=
   option_map (fun w => GWith (w_rec w) (map ast_of_cte (w_ctes w))) w.
 Definition ast_of_sets (l : list (string * mexpr)) : list (gexpr * gexpr) :=
   map (fun ce : string * mexpr => (GIdent (fst ce) "", ast_of (snd ce))) l.
-Definition ast_of_stmt (s : mstmt) : gstmt :=
-  let w := ast_of_with (st_with s) in
-  match st_body s with
+Definition ast_of_stmt_w (w : option gwith) (b : mbody) : gstmt :=
+  match b with
   | BQuery q => ast_of_query_w w q
   | BInsert t cols src ret =>
       GInsert w (join_dot t) (map (fun c => GIdent c "") cols)
@@ -298,6 +297,7 @@ Definition ast_of_stmt (s : mstmt) : gstmt :=
   | BUpdate t sets wh ret => GUpdate w (join_dot t) "" (ast_of_sets sets) [] (option_map ast_of wh) (map ast_of ret)
   | BDelete t wh ret => GDelete w (join_dot t) "" [] (option_map ast_of wh) (map ast_of ret)
   end.
+Definition ast_of_stmt (s : mstmt) : gstmt := ast_of_stmt_w (ast_of_with (st_with s)) (st_body s).
 
 (* ------------------------------------------------------------------------------------------------ *)
 (* the reference surface: side conditions *)
@@ -330,12 +330,7 @@ Definition select_ok (s : mselect) : bool :=
   && (match s_from s with [] => match s_joins s with [] => true | _ => false end | _ => true end)
   && forallb join_ok (s_joins s)
   && optb ref_expr (s_where s) && forallb ref_expr (s_group s) && optb ref_expr (s_having s)
-  && forallb order_ok (s_order s) && optb number_ok (s_limit s) && optb number_ok (s_offset s)
-  (* a statement without FROM carries no clause other than the select list (the parser insists on FROM first) *)
-  && (match s_from s with
-      | [] => match s_where s, s_group s, s_having s, s_order s, s_limit s, s_offset s with
-              | None, [], None, [], None, None => true | _, _, _, _, _, _ => false end
-      | _ => true end).
+  && forallb order_ok (s_order s) && optb number_ok (s_limit s) && optb number_ok (s_offset s).
 (* ORDER BY / LIMIT / OFFSET on an operand of a set operation needs parentheses the grammar of the parser does not
    have, and written after the last operand they belong to the whole query expression, for which the tree has no
    slot (listed known finding `setop-trailing-order-by`): operands carry none of them *)
@@ -349,14 +344,18 @@ Fixpoint query_ok (q : mquery) : bool :=
   | QSetOp l _ _ r => query_ok l && operands_plain l && select_ok r && plain_operand r
   end.
 
-(* what may follow a SELECT / query: end of input, `;`, `)`, a set operator *)
+(* what may follow a SELECT: end of input, `;`, `)`, a set operator, RETURNING (of an enclosing INSERT) *)
 Definition sel_stop (t : token) : bool :=
-  (isT t TyEOF || isT t TySemicolon || isT t TyRParen || isT t TyUnion || isT t TyExcept || isT t TyIntersect)
+  (isT t TyEOF || isT t TySemicolon || isT t TyRParen || isT t TyUnion || isT t TyExcept || isT t TyIntersect || isT t TyReturning)
   && stops 0 t.
 Definition sel_follow (stop : list token) : Prop := exists t rest, stop = t :: rest /\ sel_stop t = true.
 (* what may follow a whole query expression: not a set operator *)
-Definition query_stop (t : token) : bool := (isT t TyEOF || isT t TySemicolon || isT t TyRParen) && stops 0 t.
+Definition query_stop (t : token) : bool := (isT t TyEOF || isT t TySemicolon || isT t TyRParen || isT t TyReturning) && stops 0 t.
 Definition query_follow (stop : list token) : Prop := exists t rest, stop = t :: rest /\ query_stop t = true.
+(* what may follow a whole statement: end of input, `;`, `)` (the parser also looks at the literal for RETURNING) *)
+Definition stmt_stop (t : token) : bool :=
+  (isT t TyEOF || isT t TySemicolon || isT t TyRParen) && stops 0 t && negb (String.eqb (lit t) "RETURNING").
+Definition stmt_follow (stop : list token) : Prop := exists t rest, stop = t :: rest /\ stmt_stop t = true.
 
 (* nesting used by the expressions of a SELECT: the largest [pdepth] of its expressions under the choices [sr]
    (the parser's depth counter rises by one for the SELECT itself and by one on entering each expression) *)
@@ -387,6 +386,65 @@ Fixpoint query_depth (sr : srho) (base : nat) (q : mquery) : nat :=
   | QSetOp l _ _ r => Nat.max (query_depth sr base l) (select_depth (shift sr (base + qsize l)) r)
   end.
 
+(* statements *)
+Definition cte_ok (c : mcte) : bool := query_ok (c_body c).
+Definition with_ok (w : option mwith) : bool :=
+  match w with None => true | Some w => negb (Nat.eqb (List.length (w_ctes w)) 0) && forallb cte_ok (w_ctes w) end.
+Definition path_ok (p : list string) : bool := negb (Nat.eqb (List.length p) 0).
+Definition row_ok (row : list mexpr) : bool := negb (Nat.eqb (List.length row) 0) && forallb ref_expr row.
+Definition body_ok (b : mbody) : bool :=
+  match b with
+  | BQuery q => query_ok q
+  | BInsert t cols src ret =>
+      path_ok t && forallb ref_expr ret
+      && match src with
+         | inl rows => negb (Nat.eqb (List.length rows) 0) && forallb row_ok rows
+         | inr q => query_ok q
+         end
+  | BUpdate t sets wh ret =>
+      path_ok t && negb (Nat.eqb (List.length sets) 0) && forallb (fun ce => ref_expr (snd ce)) sets
+      && optb ref_expr wh && forallb ref_expr ret
+  | BDelete t wh ret => path_ok t && optb ref_expr wh && forallb ref_expr ret
+  end.
+Definition stmt_ok (s : mstmt) : bool := with_ok (st_with s) && body_ok (st_body s).
+
+(* no alias without AS after a bare column reference anywhere in the statement *)
+Fixpoint query_bare_alias_free (q : mquery) : bool :=
+  match q with QSelect s => select_bare_alias_free s | QSetOp l _ _ r => query_bare_alias_free l && select_bare_alias_free r end.
+Definition stmt_bare_alias_free (s : mstmt) : bool :=
+  match st_with s with None => true | Some w => forallb (fun c => query_bare_alias_free (c_body c)) (w_ctes w) end
+  && match st_body s with
+     | BQuery q => query_bare_alias_free q
+     | BInsert _ _ (inr q) _ => query_bare_alias_free q
+     | _ => true
+     end.
+
+(* how far the depth counter rises above its value at the statement: +1 per CTE, +1 per SELECT, +1 on entering an
+   expression, then the nesting inside the expression *)
+Fixpoint ctes_depth (sr : srho) (base : nat) (l : list mcte) : nat :=
+  match l with
+  | [] => 0
+  | c :: tl => Nat.max (3 + query_depth sr base (c_body c)) (ctes_depth sr (base + qsize (c_body c)) tl)
+  end.
+Fixpoint rows_depth (sr : srho) (i : nat) (rows : list (list mexpr)) : nat :=
+  match rows with [] => 0 | row :: tl => Nat.max (exprs_depth sr cl_values i row) (rows_depth sr (i + List.length row) tl) end.
+Fixpoint sets_depth (sr : srho) (i : nat) (l : list (string * mexpr)) : nat :=
+  match l with [] => 0 | (_, e) :: tl => Nat.max (pdepth 0 (sr cl_set i) e) (sets_depth sr (S i) tl) end.
+Definition body_depth (sr : srho) (base : nat) (b : mbody) : nat :=
+  match b with
+  | BQuery q => 2 + query_depth sr base q
+  | BInsert _ _ src ret =>
+      Nat.max (match src with inl rows => 1 + rows_depth (shift sr base) 0 rows | inr q => 2 + query_depth sr base q end)
+              (1 + exprs_depth (shift sr (base + match src with inl _ => 0 | inr q => qsize q end)) cl_returning 0 ret)
+  | BUpdate _ sets wh ret =>
+      1 + Nat.max (sets_depth (shift sr base) 0 sets)
+            (Nat.max (opt_depth (shift sr base cl_where 0) wh) (exprs_depth (shift sr base) cl_returning 0 ret))
+  | BDelete _ wh ret => 1 + Nat.max (opt_depth (shift sr base cl_where 0) wh) (exprs_depth (shift sr base) cl_returning 0 ret)
+  end.
+Definition stmt_depth (sr : srho) (s : mstmt) : nat :=
+  Nat.max (match st_with s with None => 0 | Some w => ctes_depth sr 0 (w_ctes w) end)
+          (body_depth sr (with_size (st_with s)) (st_body s)).
+
 (* non-vacuity *)
 Definition ex_select : mselect :=
   MkSelect true
@@ -407,4 +465,25 @@ Example ex_select_text :
      "JOIN"; "items"; "USING"; "("; "oid"; ","; "k"; ")";
      "WHERE"; "a"; "OR"; "b"; "AND"; "NOT"; "c"; "GROUP"; "BY"; "u"; "."; "id"; "HAVING"; "COUNT"; "("; "x"; ")"; ">"; "1";
      "ORDER"; "BY"; "n"; "DESC"; "NULLS"; "LAST"; ","; "1"; "LIMIT"; "10"; "OFFSET"; "5"].
+Proof. reflexivity. Qed.
+
+(* a WITH statement over a set operation, and an INSERT ... SELECT ... RETURNING *)
+Definition ex_stmt_with : mstmt :=
+  MkStmt (Some (MkWith true [MkCte "c" ["x"; "y"] (Some false)
+                               (QSetOp (QSelect (MkSelect false [IExpr (MNum "1") None; IExpr (MNum "2") None] [] [] None [] None [] None None))
+                                       OUnion true
+                                       (MkSelect false [IExpr (MBin BAdd (MIdent false "x") (MNum "1")) None; IExpr (MIdent false "y") None]
+                                                 [MkTable ["c"] None] [] (Some (MBin (BCmp CLt) (MIdent false "x") (MNum "10"))) [] None [] None None))]))
+         (BQuery (QSelect ex_select)).
+Definition ex_stmt_insert : mstmt :=
+  MkStmt None
+    (BInsert ["s"; "t"] ["a"; "b"]
+       (inr (QSelect (MkSelect false [IExpr (MIdent false "a") None; IExpr (MFunc "f" false [MIdent false "b"]) (Some (true, "fb"))]
+                               [MkTable ["u"] None] [] None [] None [] None None)))
+       [MIdent false "a"; MBin BMul (MIdent false "b") (MNum "2")]).
+Example ex_stmts_ok : stmt_ok ex_stmt_with = true /\ stmt_ok ex_stmt_insert = true. Proof. split; reflexivity. Qed.
+Example ex_stmt_insert_text :
+  map lit (render_stmt (fun _ _ => no_parens) ex_stmt_insert)
+  = ["INSERT"; "INTO"; "s"; "."; "t"; "("; "a"; ","; "b"; ")"; "SELECT"; "a"; ","; "f"; "("; "b"; ")"; "AS"; "fb"; "FROM"; "u";
+     "RETURNING"; "a"; ","; "b"; "*"; "2"].
 Proof. reflexivity. Qed.
